@@ -332,6 +332,9 @@ func (env *ExprEnv) eval(e ast.Expr) Val {
 			ST := x.T.Underlying().(*types.Slice)
 			return t.load(env.st, "elem:"+prefixFor(ST.Elem()), x.Fields[0].S, i.S, ST.Elem())
 		}
+		if x.Unset {
+			return Val{K: KInt, S: t.fresh("unset:[]", "Int"), Unset: true}
+		}
 		return env.fail("indexing of %s", x.K)
 	case *ast.TypeAssertExpr:
 		x := env.eval(e.X)
@@ -580,6 +583,9 @@ func (env *ExprEnv) selectField(x Val, name string) Val {
 	t := env.t
 	if x.K == KIface && x.T == nil {
 		return Val{K: KFunc, S: t.mthTerm(name, x.S), T: nil}
+	}
+	if x.Unset {
+		return Val{K: KInt, S: t.fresh("unset:."+name, "Int"), Unset: true}
 	}
 	if x.T == nil {
 		return env.fail("selector .%s on value without type", name)
